@@ -314,6 +314,10 @@ class TemplateLookup:
             if current_lowername.startswith(f"{template_lowername}/"):
                 raise OverrideTemplateNotAllowed(f"Cannot override a directory with "
                             f"a template. Rename '{template_name}' to something else.")
+            if template_lowername.startswith(f"{current_lowername}/"):
+                # The other way round: a file cannot be written below a file.
+                raise OverrideTemplateNotAllowed(f"Cannot override the template '{t.name}' with "
+                            f"a directory. Rename the directory of '{template_name}' to something else.")
 
     def add_template(self, template: Template) -> None:
         """
